@@ -128,6 +128,111 @@ def derived_from(f, e, pred, depth=0, vsteps=0):
     return None
 
 
+def tainted_locals(f, accessors):
+    """{decl index: accessor name}: locals that hold input text, propagated flow-insensitively through
+    copies/conversions, string streams (constructor + getline), containers (push_back, iteration) and
+    iterators over tainted containers.  Used for the lookup-miss form of R-INASSERT."""
+    cache = getattr(f, "_tainted", None)
+    if cache is not None and cache[0] is accessors:
+        return cache[1]
+    t = {}
+
+    def src_of(e, depth=0):
+        e = strip_casts(e)
+        if e is None or depth > 10:
+            return None
+        r = derived_from(f, e, accessors)
+        if r:
+            return r
+        for x in walk(e):
+            if x["k"] == "DeclRefExpr" and x.get("d") in t:
+                return t[x["d"]]
+        return None
+    changed = True
+    rounds = 0
+    while changed and rounds < 8:
+        changed = False
+        rounds += 1
+        for n in f.nodes():
+            k = n["k"]
+            tgt = src = None
+            if k == "VarDecl" and n.get("c") and n["c"][0] is not None:
+                tgt, src = n.get("d"), src_of(n["c"][0])
+            elif k == "CXXOperatorCallExpr" and n.get("op") in ("=", "+=") and len(n["c"]) == 3:
+                l = strip_casts(n["c"][1])
+                if l is not None and l["k"] == "DeclRefExpr":
+                    tgt, src = l.get("d"), src_of(n["c"][2])
+            elif k == "BinaryOperator" and n.get("op") == "=":
+                l = strip_casts(n["c"][0])
+                if l is not None and l["k"] == "DeclRefExpr":
+                    tgt, src = l.get("d"), src_of(n["c"][1])
+            elif k == "CallExpr" and (f.decl(n) or {}).get("n") == "getline":
+                a = call_args(n)
+                if len(a) >= 2:
+                    o = strip_casts(a[1])
+                    if o is not None and o["k"] == "DeclRefExpr":
+                        tgt, src = o.get("d"), src_of(a[0])
+            elif k == "CXXMemberCallExpr" and (f.decl(n) or {}).get("n") in ("push_back", "emplace_back", "insert"):
+                o = strip_casts(member_call_object(n))
+                if o is not None and o["k"] == "DeclRefExpr" and call_args(n):
+                    tgt, src = o.get("d"), src_of(call_args(n)[-1])
+            elif k == "CXXForRangeStmt":
+                tgt, src = n.get("d"), src_of(n["c"][0])
+            if tgt is not None and src and tgt not in t:
+                t[tgt] = src
+                changed = True
+    f._tainted = (accessors, t)
+    return t
+
+
+def lookup_miss(f, atom, accessors):
+    """atom is `it != m.end()` (asserted) where `it` was produced by `m.find(key)` and key holds input text.
+    Returns (key text, accessor) or None."""
+    a = strip_casts(atom)
+    if a is None or a["k"] not in ("CXXOperatorCallExpr", "BinaryOperator") or a.get("op") != "!=":
+        return None
+    ops = call_args(a) if a["k"] == "CXXOperatorCallExpr" else a["c"]
+    it = end = None
+    for o in ops:
+        o0 = strip_casts(o)
+        while o0 is not None and o0["k"] == "CXXConstructExpr" and len(o0.get("c", [])) == 1:
+            o0 = strip_casts(o0["c"][0])
+        if o0 is None:
+            continue
+        if o0["k"] == "CXXMemberCallExpr" and (f.decl(o0) or {}).get("n") in ("end", "cend"):
+            end = o0
+        elif o0["k"] == "DeclRefExpr":
+            it = o0
+    if it is None or end is None:
+        return None
+    t = tainted_locals(f, accessors)
+    for rhs in local_defs(f).get(it.get("d"), []):
+        if isinstance(rhs, tuple):
+            continue
+        for x in walk(rhs):
+            if x["k"] == "CXXMemberCallExpr" and (f.decl(x) or {}).get("n") == "find" and call_args(x):
+                key = call_args(x)[0]
+                # m[key] / m.insert(..key..) executed before the find creates the entry: the lookup cannot miss
+                mtxt, ktxt = expr_str(f, member_call_object(x)), expr_str(f, key)
+                created = False
+                for y in f.nodes():
+                    if (y["l"], y["i"]) >= (x["l"], x["i"]):
+                        break
+                    if y["k"] == "CXXOperatorCallExpr" and y.get("op") == "[]" and len(y["c"]) == 3 and \
+                            expr_str(f, y["c"][1]) == mtxt and expr_str(f, y["c"][2]) == ktxt and \
+                            _dominates_simple(f, y, x):
+                        created = True
+                if created:
+                    return None
+                for y in walk(key):
+                    if y["k"] == "DeclRefExpr" and y.get("d") in t:
+                        return expr_str(f, key), t[y["d"]]
+                r = derived_from(f, key, accessors)
+                if r:
+                    return expr_str(f, key), r
+    return None
+
+
 def run(ctx, P, funcs, prop, producers=None, accessors=None, rule="R-INASSERT", undecided=None):
     """undecided: {entity: reason} - sites the one-step slice classifies as input-derived but for which no
     failing input could be constructed; they are neither reported nor claimed (listed in the evidence notes)."""
@@ -190,6 +295,18 @@ def run(ctx, P, funcs, prop, producers=None, accessors=None, rule="R-INASSERT", 
                            "asserted non-null fact is already established by a dominating check" if ok else
                            "`%s` comes from %s() applied to input and can be null here: the assertion aborts the "
                            "process on such input" % (expr_str(f, a), src))
+                    continue
+                # ---- lookup-miss form:  it = m.find(<input text>);  ABG_ASSERT(it != m.end())
+                lm = lookup_miss(f, a, accessors)
+                if lm:
+                    n_input += 1
+                    ok = established(f, site, a)
+                    ent = "%s: %s(%s)" % (short(f), kind, expr_str(f, a))
+                    ent += occurrence_tag(seen, ent)
+                    ctx.ob(rule, ent, ok, f.loc(site),
+                           "the lookup is already known to have succeeded" if ok else
+                           "the asserted lookup uses the key `%s`, text taken from the input by %s(): a name the "
+                           "document does not define aborts the process" % lm)
                     continue
                 # ---- value form
                 vsrc = None
